@@ -55,6 +55,21 @@ def step (s : Option St) (line : String) : Option St × String :=
           let (it, next) := collPage (getColl st (kind, raw)) cur cnt (rev == "1")
           (s, s!"items={hexList it} next={hexs next}")
         | _, _, _ => (s, "bad-op")
+      | ["fullm", T, table, start, cnt, rev, pre] =>
+        -- MATCH <table>:<pre>* : the scan pages over the matching keys only (the store skips the others while it counts)
+        match unhex table, unhex start, cnt.toInt?, unhex pre with
+        | some table, some start, some cnt, some pre =>
+          let pat := table ++ [58] ++ pre
+          match advFull ((getPop st T).filter (fun k => pat.isPrefixOf k)) table cnt (rev == "1") 2001 start 0 with
+          | some (ks, r) => (s, s!"keys={hexList ks} rounds={r}")
+          | none => (s, "bad-op")
+        | _, _, _, _ => (s, "bad-op")
+      | ["cfullm", kind, raw, start, cnt, rev, pre] =>
+        match unhex raw, unhex start, cnt.toInt?, unhex pre with
+        | some raw, some start, some cnt, some pre =>
+          let (it, r) := collFull ((getColl st (kind, raw)).filter (fun k => pre.isPrefixOf k)) cnt (rev == "1") 2001 start 0
+          (s, s!"items={hexList it} rounds={r}")
+        | _, _, _, _ => (s, "bad-op")
       | ["cfull", kind, raw, start, cnt, rev] =>
         match unhex raw, unhex start, cnt.toInt? with
         | some raw, some start, some cnt =>
